@@ -386,7 +386,7 @@ Definition paint_run (inp : draw_input) : paint_obs :=
   match draw ws cols rows with
   | DPanic => (1, [])
   | DOk s =>
-      match render [(0, 0, cols, rows)] s with
+      match render (app_window cols rows s) s with
       | None => (1, [])
       | Some ps => match screen_apply (new_screen wblank cols rows) ps with
                    | None => (1, [])
